@@ -633,6 +633,109 @@ fn c03_apply_header_update_index_data() { apply_header_update(b'I', b'D', 0, "/g
 #[kani::stub(core::slice::memchr::memrchr, naive_memrchr)]
 fn c03_apply_header_update_index2_index() { apply_header_update(b'I', b'I', 2, "/g/sqpack/ex2/0a0200.win32.index2"); }
 
+// =================================================================================================
+// C04: ZiPatch::create over the file model.  Trees are tiny and concrete in shape (names, sizes), file CONTENTS are
+// symbolic.  The produced patch is read back with Physis's own chunk reader: which commands it holds, for which relative
+// path, with which content.
+// =================================================================================================
+fn next_file_op(c: &mut Cursor<&[u8]>) -> Option<(u8, u64)> {
+    // returns (operation letter, file size) of the next chunk when it is a file operation on the path "x"; None for EOF_
+    let ch = PatchChunk::read(c).expect("well-formed chunk");
+    match ch.chunk_type {
+        ChunkType::EndOfFile => None,
+        ChunkType::Sqpk(pc) => match pc.operation {
+            SqpkOperation::FileOperation(f) => {
+                assert!(f.path.as_bytes() == b"x");
+                let r = match f.operation { SqpkFileOperation::AddFile => (b'A', f.file_size), SqpkFileOperation::DeleteFile => (b'D', f.file_size),
+                                            SqpkFileOperation::RemoveAll => (b'R', 0), SqpkFileOperation::MakeDirTree => (b'M', 0) };
+                core::mem::forget(f);
+                Some(r)
+            }
+            _ => panic!("create emits file operations only"),
+        },
+        _ => panic!("create emits SQPK chunks only"),
+    }
+}
+/// model of `Path::strip_prefix` for the normalised paths `create` builds (no `.` / `..` / repeated separators): the
+/// remainder behind `base` and one separator.  std's version walks both paths with its component parser, whose
+/// result slice has an if-then-else length under symbolic execution even for concrete paths.
+fn naive_strip_prefix<'a>(this: &'a Path, base: &Path) -> Result<&'a Path, std::path::StripPrefixError> {
+    let s = this.as_os_str().as_encoded_bytes();
+    let b = base.as_os_str().as_encoded_bytes();
+    let mut same = s.len() >= b.len();
+    let mut i = 0;
+    while same && i < b.len() { if s[i] != b[i] { same = false; } i += 1; }
+    if same && s.len() == b.len() {
+        Ok(Path::new(""))
+    } else if same && s[b.len()] == b'/' {
+        Ok(Path::new(unsafe { std::ffi::OsStr::from_encoded_bytes_unchecked(&s[b.len() + 1..]) }))
+    } else {
+        Err(unsafe { core::mem::transmute::<(), std::path::StripPrefixError>(()) })
+    }
+}
+fn create_case(in_base: bool, in_new: bool) {
+    memfs::reset();
+    let old: [u8; 3] = kani::any();
+    let new: [u8; 4] = kani::any();
+    let keep: [u8; 2] = kani::any();
+    if in_base { memfs::add_file("/a/x", &old); } else { memfs::add_file("/a/k", &keep); }
+    if in_new { memfs::add_file("/b/x", &new); } else { memfs::add_file("/b/k", &keep); }
+    let mutations = memfs::mutation_count();
+    let patch = ZiPatch::create("/a", "/b").expect("a patch is produced");
+    // creating a patch never modifies either tree
+    assert_eq!(memfs::mutation_count(), mutations);
+    assert!(!memfs::limit_hit());
+    let mut c = Cursor::new(&patch[..]);
+    PatchHeader::read(&mut c).expect("patch header");
+    let mut added = 0;
+    let mut deleted = 0;
+    let mut guard = 0;
+    while guard < 3 {
+        match next_file_op(&mut c) {
+            None => break,
+            Some((b'A', size)) => {
+                added += 1;
+                assert_eq!(size, 4);
+                c.seek(SeekFrom::Current(-4)).unwrap();
+                let data = read_data_block_patch(&mut c).expect("file block");
+                assert_eq!(data.len(), 4);
+                assert!(data[0] == new[0] && data[1] == new[1] && data[2] == new[2] && data[3] == new[3]);
+                c.seek(SeekFrom::Current(4)).unwrap();
+                core::mem::forget(data);
+            }
+            Some((b'D', _)) => { deleted += 1; }
+            Some(_) => panic!("unexpected file operation"),
+        }
+        guard += 1;
+    }
+    // a file in the new tree is (re)written with the new content and not deleted; a file only in the old tree is deleted
+    assert_eq!(added, if in_new { 1 } else { 0 });
+    assert_eq!(deleted, if in_base && !in_new { 1 } else { 0 });
+    kani::cover!(true);
+    core::mem::forget(patch);
+}
+#[kani::proof]
+#[kani::unwind(70)]
+#[kani::stub(core::str::validations::run_utf8_validation, ascii_utf8_validation)]
+#[kani::stub(core::slice::memchr::memchr_aligned, naive_memchr)]
+#[kani::stub(core::slice::memchr::memrchr, naive_memrchr)]
+#[kani::stub(std::path::Path::_strip_prefix, naive_strip_prefix)]
+fn c04_create_file_only_in_new() { create_case(false, true); }
+#[kani::proof]
+#[kani::unwind(70)]
+#[kani::stub(core::str::validations::run_utf8_validation, ascii_utf8_validation)]
+#[kani::stub(core::slice::memchr::memchr_aligned, naive_memchr)]
+#[kani::stub(core::slice::memchr::memrchr, naive_memrchr)]
+#[kani::stub(std::path::Path::_strip_prefix, naive_strip_prefix)]
+fn c04_create_file_only_in_old() { create_case(true, false); }
+#[kani::proof]
+#[kani::unwind(70)]
+#[kani::stub(core::str::validations::run_utf8_validation, ascii_utf8_validation)]
+#[kani::stub(core::slice::memchr::memchr_aligned, naive_memchr)]
+#[kani::stub(core::slice::memchr::memrchr, naive_memrchr)]
+#[kani::stub(std::path::Path::_strip_prefix, naive_strip_prefix)]
+fn c04_create_file_in_both() { create_case(true, true); }
+
 // ---- zz probes (temporary) ----
 fn zz_spin(n: usize) { let mut k = 0; while k < n { k += 1; } }
 fn zz_patch_td() {
